@@ -46,9 +46,9 @@ PROPS["C12"] = dict(
 )
 
 PROPS["C13"] = dict(
-    suites=["c13", "c13e"],
+    suites=["c13", "c13e", "c13p"],
     random_suites=["c13"],
-    shards={"c13": 4, "c13e": 1},
+    shards={"c13": 4, "c13e": 1, "c13p": 1},
     lean_modules=["ServlinVerif.Props.C13"],
     audit="Audit/C13.lean",
     rule="whole servers on loopback with their own permit: revocation injected with 0..45 ms random delay at each phase of a connection's life {no "
@@ -60,7 +60,7 @@ PROPS["C13"] = dict(
          "accept() keeps failing with EMFILE (descriptor table filled, a client waiting in the backlog; needs prlimit(1)), revoked 150..750 ms into "
          "that state: the stopped signal must still arrive (within 2.5 s: one 500 ms error sleep) and the port must then refuse connections. Non-trivial = at least one open connection at revocation.",
     nontrivial=lambda tag, args, obs: args[1] != "-",
-    klass=lambda tag, args, obs: "c13e:accept-failing" if tag == "c13e" else "c13:conns=%d:allslots=%s" % (len(args[1].replace("-", "")), "yes" if len(args[1].replace("-", "")) == int(args[0]) else "no"),
+    klass=lambda tag, args, obs: "c13e:accept-failing" if tag == "c13e" else "c13p:revoked-at=" + args[1] if tag == "c13p" else "c13:conns=%d:allslots=%s" % (len(args[1].replace("-", "")), "yes" if len(args[1].replace("-", "")) == int(args[0]) else "no"),
     explanation="Model/Server.lean. C13_rank_decreases/C13_bounded: after revocation the accept loop takes at most 3 more steps of its own in every "
                 "schedule; C13_progress: in the repaired loop such a step is always enabled without anything from outside (no free slot, client or "
                 "connection ending needed); C13_never_early (stopped only after revocation; at most one straggler accept), C13_stopped_final; "
